@@ -851,6 +851,36 @@ def relink_shape(scans) -> bool:
     return True
 
 
+def page_unlink_shape(scans) -> bool:
+    """writer._writeDocsFor: the page is opened through a local P and, before, `if P.is_symlink(): P.unlink()` runs in the
+    same block (so the page is never written through a link left at its name)"""
+    sc = [x for x in scans if x.rel == 'templatewriter/writer.py'][0]
+    fns = [n for n in ast.walk(sc.tree) if isinstance(n, ast.FunctionDef) and n.name == '_writeDocsFor']
+    if len(fns) != 1:
+        raise Shape('TemplateWriter._writeDocsFor not found exactly once')
+    opens = [n for n in ast.walk(fns[0]) if isinstance(n, ast.Call) and isinstance(n.func, ast.Attribute) and n.func.attr == 'open'
+             and n.args and isinstance(n.args[0], ast.Constant) and n.args[0].value in ('wb', 'w')]
+    if len(opens) != 1:
+        raise Shape('unrecognised shape: _writeDocsFor opens %d files for writing' % len(opens))
+    recv = opens[0].func.value
+    if not isinstance(recv, ast.Name):
+        return False
+    # the enclosing statement of the open and its preceding siblings
+    st = opens[0]
+    while not isinstance(sc.parent.get(st), (ast.If, ast.For, ast.While, ast.FunctionDef, ast.With, ast.Try)) or isinstance(st, ast.expr) \
+            or isinstance(st, ast.withitem):
+        st = sc.parent.get(st)
+    par = sc.parent.get(st)
+    for fld in ('body', 'orelse', 'finalbody'):
+        lst = getattr(par, fld, None)
+        if isinstance(lst, list) and st in lst:
+            for prev in lst[:lst.index(st)]:
+                if isinstance(prev, ast.If) and not prev.orelse and ast.unparse(prev.test) == '%s.is_symlink()' % recv.id \
+                        and [ast.unparse(x) for x in prev.body] == ['%s.unlink()' % recv.id]:
+                    return True
+    return False
+
+
 CLOCK_CALLS = ('time.time', 'time.monotonic', 'time.perf_counter', 'time.localtime', 'time.gmtime', 'time.strftime',
                'datetime.datetime.now', 'datetime.now', 'datetime.datetime.utcnow', 'datetime.utcnow',
                'datetime.datetime.today', 'datetime.date.today', 'date.today')
@@ -1076,6 +1106,7 @@ def generate() -> dict:
     L.append('].')
     L.append('')
     L.append('Definition relink_is_unlink_then_symlink : bool := %s.' % ('true' if relink_shape(scans) else 'false'))
+    L.append('Definition page_write_unlinks_symlink : bool := %s.' % ('true' if page_unlink_shape(scans) else 'false'))
     L.append('')
     L.append('(* wall-clock reads and what consumes them; the assignments to system.buildtime in get_system, in order *)')
     L.append('Definition clock_reads : list (N * N * clock_ctx) := [%s].' % '; '.join(
